@@ -449,8 +449,8 @@ Definition parse_title (z : tz) : res (str * tz) :=
        if negb (tok_is z2 K_SEMI) then Err ParseErr else Ok (title, z2).
 
 (* _parse_link_statement: returns links.get("taxa") (a link to None is None).
-   `while token != ';'` makes no progress on a token that is neither TAXA nor CHARACTERS nor ';'
-   (also at end of stream): the Python loop does not terminate, modelled as Hang. *)
+   `while token != ';'`: TAXA = x / CHARACTERS = x are read, any other token is skipped with
+   require_next_token_ucase (UnexpectedEndOfStreamError at the end of the stream). *)
 Fixpoint link_loop (fuel : nat) (z : tz) (taxa : option str) : res (option str * tz) :=
   match fuel with
   | O => OutOfFuel
@@ -461,17 +461,12 @@ Fixpoint link_loop (fuel : nat) (z : tz) (taxa : option str) : res (option str *
       if negb (tok_is z1 K_EQ) then Err ParseErr
       else do z2 <- next_token z1 ;;
            let v := z_cur z2 in
-           do z3 <- next_token z2 ;;
-           if tok_is z3 K_CHARACTERS then
-             do z4 <- next_token z3 ;;
-             if negb (tok_is z4 K_EQ) then Err ParseErr
-             else do z5 <- next_token z4 ;; do z6 <- next_token z5 ;; link_loop f z6 v
-           else link_loop f z3 v
+           do z3 <- next_token z2 ;; link_loop f z3 v
     else if tok_is z K_CHARACTERS then
       do z1 <- next_token z ;;
       if negb (tok_is z1 K_EQ) then Err ParseErr
       else do z2 <- next_token z1 ;; do z3 <- next_token z2 ;; link_loop f z3 taxa
-    else Err Hang
+    else do z1 <- require_next_token_ucase z ;; link_loop f z1 taxa
   end.
 Definition parse_link (fuel : nat) (z : tz) : res (option str * tz) :=
   do z1 <- next_token_ucase z ;; link_loop fuel z1 None.
@@ -505,7 +500,7 @@ Fixpoint taxlabels_loop (fuel : nat) (z : tz) (taxa : list str) (ntax : option Z
   | O => OutOfFuel
   | S f =>
     match z_cur z with
-    | None => Err AttrErr                         (* None.lower() *)
+    | None => Err AttrErr                         (* None.lower(): unreachable, every fetch here is require_next_token *)
     | Some label =>
       if str_eqb label K_SEMI then Ok (taxa, z)
       else
@@ -513,7 +508,7 @@ Fixpoint taxlabels_loop (fuel : nat) (z : tz) (taxa : list str) (ntax : option Z
                      | Some _ => Ok taxa
                      | None =>
                        match ntax with
-                       | None => Err TypeErr      (* len(ns) >= None *)
+                       | None => Ok (taxa ++ [label])   (* no DIMENSIONS NTAX: no limit *)
                        | Some n =>
                          if (n <=? Z.of_nat (length taxa))
                             && negb (c_attached c && negb (is_nil taxa))   (* `not self.attached_taxon_namespace`: an empty namespace is falsy *)
@@ -526,7 +521,7 @@ Fixpoint taxlabels_loop (fuel : nat) (z : tz) (taxa : list str) (ntax : option Z
     end
   end.
 Definition parse_taxlabels (fuel : nat) (k : core) (ns : nat) : res core :=
-  do z1 <- next_token (k_z k) ;;
+  do z1 <- require_next_token (k_z k) ;;
   do r <- taxlabels_loop fuel z1 (ns_taxa_at k ns) (k_ntax k) ;;
   let '(taxa, z2) := r in
   Ok (set_z (set_ns_taxa k ns taxa) z2).
@@ -617,7 +612,7 @@ Definition parse_tree_stmt (m : mapper) (z : tz) : res (T * mapper * tz) :=
     do r <- parse_tree m z5 ;;
     let '(ot, m1, z6) := r in
     match ot with
-    | None => Err AttrErr                         (* None.label = tree_name *)
+    | None => Err ParseErr                        (* "Expecting tree description ... but found end of stream" *)
     | Some t => Ok (add_comments_opt (set_label t tree_name) pre, m1, z6)
     end.
 
@@ -772,9 +767,9 @@ Fixpoint r_blocks_loop (fuel : nat) (s : rs) : res rs :=
   end.
 
 Definition r_parse_nexus_stream (fuel : nat) (s : rs) : res rs :=
-  do k1 <- zstep (r_k s) next_token ;;
+  do k1 <- zstep (r_k s) require_next_token ;;
   match z_cur (k_z k1) with
-  | None => Err AttrErr                           (* None.upper() *)
+  | None => Err AttrErr                           (* unreachable after require_next_token *)
   | Some t =>
     if negb (str_eqb (upper t) K_NEXUS) then Err ParseErr     (* NotNexusFileError *)
     else r_blocks_loop fuel (mkRs k1 (r_g s) (r_tls s) (r_tlreg s))
@@ -878,7 +873,7 @@ Fixpoint y_blocks_loop (fuel : nat) (k : core) (g : regs) : yres (core * regs) :
   end.
 
 Definition y_items_from_stream (fuel : nat) (k : core) (g : regs) : yres (core * regs) :=
-  ybind (ylift (zstep k next_token)) (fun k1 =>
+  ybind (ylift (zstep k require_next_token)) (fun k1 =>
   match z_cur (k_z k1) with
   | None => ([], Err AttrErr)
   | Some t =>
